@@ -144,6 +144,11 @@ def gen_cases(rng, tier, exh=True):
         c = [rng.randint(1, 3) for _ in range(m)]
         for ro in (True, False):
             yield dict(entry="GaleShapley.scf", family=kind, R=R, H=H, c=c, ro=ro, zi=bool(i % 2))
+    # one resident more than there are seats, larger sides: long displacement chains (one proposer per round, about n*m rounds)
+    for i in range(30 if tier == "quick" else 600):
+        m = rng.randint(8, 13); n = m + 1
+        R = rand_profile(rng, n, m, 0.0); H = rand_profile(rng, m, n, 0.0)
+        yield dict(entry="GaleShapley.scf", family="long_chain", R=R, H=H, c=[1] * m, ro=(i % 4 != 3), zi=bool(i % 2), dtype=["float", "int64"][i % 2])
     N = 400 if tier == "quick" else 20000
     for i in range(N):
         n = rng.randint(1, 7); m = rng.randint(1, 5); pn = rng.choice([0, 0, 0.2, 0.5])
